@@ -467,7 +467,9 @@ ENC_JUNK = [('ascii', b'ab\xffcd'), ('cp1252', b'ab\x81cd'), ('iso-8859-7', b'ab
             ('utf-8', b'\xa9abc'), ('utf-8', b'ab\xed\xa0\x80cd'), ('utf-8', b'ab\xf4\x90\x80\x80'), ('utf-8', b'ab\xc0\xafcd'),
             # a lone high surrogate, a low one before a high one (utf-16); a value beyond U+10FFFF, a surrogate value (utf-32)
             ('utf-16', b'a\x00b\x00\x00\xd8c\x00'), ('utf-16', b'a\x00b\x00\x00\xdc\x00\xd8'), ('utf-32', b'a\x00\x00\x00\xff\xff\xff\xff'),
-            ('utf-32', b'a\x00\x00\x00\x00\xd8\x00\x00')]
+            ('utf-32', b'a\x00\x00\x00\x00\xd8\x00\x00'),
+            # undecodable units made of 7-bit bytes only: ASCII text pasted into a utf-32 list (0x72657771 is no code point)
+            ('utf-32', b'a\x00\x00\x00qwer'), ('utf-32', b'qwer1234')]
 
 
 def run_encjunk(tier, acc):
